@@ -643,10 +643,11 @@ pub fn subs_for(id: &str) -> Vec<Sub> {
             lp(
                 "C03",
                 "c03-layout",
-                "plans with barriers at arbitrary positions (leading, trailing, doubled, inside batch builders, 1/4 of the ops) over mostly unrelated systems; oracle A: every system of an earlier barrier segment is in a strictly earlier stage, thread-local systems stay in the thread-local list; non-trivial = unrelated systems on both sides of an effective barrier",
+                "plans with barriers at arbitrary positions (leading, trailing, doubled, inside batch builders, 1/4 of the ops) over mostly unrelated systems, 1/16 of the ops a rejected registration attempt that the caller catches before going on; oracle A: every system of an earlier barrier segment is in a strictly earlier stage, thread-local systems stay in the thread-local list; non-trivial = unrelated systems on both sides of an effective barrier",
                 GenCfg {
                     p_barrier: 4,
                     p_dep: 2,
+                    p_rejected: 1,
                     universe_max: 12,
                     max_reads: 1,
                     max_writes: 1,
@@ -657,6 +658,28 @@ pub fn subs_for(id: &str) -> Vec<Sub> {
             ),
             250_000,
             4_000_000,
+        ), sub(
+            lp(
+                "C03",
+                "c03-layout-very-long",
+                "very long class: up to 2000 ops, half of them barriers, i.e. often more than 256 effective barriers in one builder",
+                GenCfg {
+                    max_ops: 2000,
+                    p_barrier: 8,
+                    p_dep: 1,
+                    p_batch: 0,
+                    p_static: 0,
+                    p_tl: 0,
+                    universe_max: 24,
+                    max_reads: 1,
+                    max_writes: 1,
+                    ..GenCfg::default()
+                },
+                16000,
+                p_layout::o_c03,
+            ),
+            200,
+            5_000,
         ), sub(
             lp(
                 "C03",
